@@ -1941,7 +1941,7 @@ fn render_tree_to_string<T: Write, D: TextDecorator>(
     // And add the links
     if !lines.is_empty() {
         renderer.start_block()?;
-        renderer.fmt_links(lines);
+        renderer.fmt_links(lines)?;
     }
     Ok(renderer)
 }
